@@ -740,8 +740,12 @@ def canonical_scenarios(sid0):
         "vr/V.1.1.dsdl": "vr.n1.L0y.1.0[<=2] a\nuint8 b\n@extent 256\n",
         "vr/V.2.0.dsdl": "vr.k9.T2.1.0 a\nvr.V.1.0 old\n@extent 1024\n",
         "vr/zz/S.1.0.dsdl": "vr.V.1.1 req\n@sealed\n---\nvr.k9.T2.1.0[<=2] resp\n@sealed\n",
+        "vr/W.1.0.dsdl": "vl.X.1.0 ext\nuint8 own\n@sealed\n",      # refers into another root namespace (a lookup directory)
+        "vl/X.1.0.dsdl": "uint8 v\n@sealed\n",
+        "vl/Y.1.0.dsdl": "uint8 w\n@sealed\n",
     }
     edited = dict(defs)
+    edited["vr/W.1.0.dsdl"] = defs["vr/W.1.0.dsdl"].replace("vl.X", "vl.Y")
     edited["vr/k9/T2.1.0.dsdl"] = defs["vr/k9/T2.1.0.dsdl"].replace("L0x", "L0y")
     edited["vr/V.1.0.dsdl"] = defs["vr/V.1.0.dsdl"].replace("L0x", "L0y")
     res = []
@@ -759,7 +763,7 @@ def canonical_scenarios(sid0):
             runs += [mk(0, ["vr.n1.L0x.1.0", "vr.k9.T2.1.0"]), mk(0, ["vr.k9.T2.1.0", "vr.n1.L0x.1.0"], lctx="same"),
                      mk(0, ["vr.n1.L0x.1.0"]), mk(0, ["vr.V.1.0", "vr.n1.L0x.1.0"]), mk(0, ["vr.n1.L0y.1.0", "vr.V.1.1"], lctx="same"),
                      mk(1, lctx="same"), mk(1), mk(0, lctx="same"), mk(0, omit=True), mk(0)]
-            res.append({"sid": sid0 + len(res), "kind": "canonical", "defsets": [defs, edited], "rootns": "vr", "lookup": [], "tpl": {"id": "builtin"},
+            res.append({"sid": sid0 + len(res), "kind": "canonical", "defsets": [defs, edited], "rootns": "vr", "lookup": ["vl"], "tpl": {"id": "builtin"},
                         "names": {}, "runs": runs})
     return res
 
@@ -864,8 +868,8 @@ def diff_classes(e1, e2):
 
 def describe(sc, ev):
     r = sc["runs"][ev["run"]]
-    return "run %d (defs %d, %s context, %s generator, omit=%s, %d types) file #%d seed %s" % (
-        ev["run"], r["d"], r.get("lctx"), r.get("gen"), r.get("omit"), len(r["types"]) if r.get("types") else -1, ev["ord"], ev["seed"])
+    return "run %d (defs %d, %s context, %s generator, omit=%s, %d listed types [0 = whole namespace]) file #%d hash seed %s" % (
+        ev["run"], r["d"], r.get("lctx"), r.get("gen"), r.get("omit"), len(r["types"]) if r.get("types") else 0, ev["ord"], ev["seed"])
 
 
 def validate_batches(ctx, batches):
@@ -1043,7 +1047,7 @@ def run(ctx):
     cases = run_model(ctx, ctx.pick("GenSiblings_emitq", "GenSiblings_emit"), "MaxRuns=2 (emission, repaired model)", emit=True).json_lines()
     if len(cases) < 500:
         raise MachineryFailure("too few histories emitted: %d" % len(cases))
-    step = max(1, len(cases) // ctx.pick(240, 2400))
+    step = max(1, len(cases) // ctx.pick(240, 2000))
     for i, h in enumerate(cases[::step]):
         scen[sid] = model_scenario(sid, h, LANGS[i % 4], "model")
         sid += 1
@@ -1051,7 +1055,7 @@ def run(ctx):
             scen[sid] = model_scenario(sid, h, LANGS[(i // 3) % 4], "model", builtin=True)
             sid += 1
     if not ctx.quick:
-        sim = run_model(ctx, "GenSiblings_emitsim", "MaxRuns=4 simulation", emit=True, simulate="num=1500", depth=60, seed=ctx.seed + 1).json_lines()
+        sim = run_model(ctx, "GenSiblings_emitsim", "MaxRuns=4 simulation", emit=True, simulate="num=600", depth=60, seed=ctx.seed + 1).json_lines()
         seen = set()
         for h in sim:
             k = json.dumps(h, sort_keys=True)
@@ -1068,7 +1072,7 @@ def run(ctx):
         scen[sc["sid"]] = sc
         sid += 1
     fixed = random.Random(20260926)
-    n_random = ctx.pick(140, 1400)
+    n_random = ctx.pick(140, 1200)
     for i in range(n_random):
         scen[sid] = rand_scenario(ctx, sid, fixed if i < n_random // 3 else ctx.rng)
         sid += 1
